@@ -59,7 +59,13 @@ def section(ctx):
     exclude = None
     slice_from = None
     path_len_src = None
+    path_len_var = 'path_length'
     if lf is not None:
+        for node in ast.walk(lf):
+            # the variable that holds len(str(self.path)) may be renamed by a refactoring
+            if isinstance(node, ast.Assign) and len(node.targets) == 1 and isinstance(node.targets[0], ast.Name) \
+                    and unparse(node.value) == 'len(str(self.path))':
+                path_len_var = node.targets[0].id
         for node in ast.walk(lf):
             if isinstance(node, ast.If) and isinstance(node.test, ast.Call) and unparse(node.test.func).endswith('.endswith') \
                     and node.body and isinstance(node.body[0], ast.Continue):
@@ -69,10 +75,10 @@ def section(ctx):
             if isinstance(node, ast.Yield) and isinstance(node.value, ast.Subscript) and isinstance(node.value.slice, ast.Slice) \
                     and node.value.slice.lower is not None and node.value.slice.upper is None and node.value.slice.step is None:
                 try:
-                    slice_from = ctx.translate(unparse(node.value.slice.lower), {'path_length': ('pathLength', 'nat')}, 'nat')
+                    slice_from = ctx.translate(unparse(node.value.slice.lower), {path_len_var: ('pathLength', 'nat')}, 'nat')
                 except ctx.Untranslatable:
                     slice_from = None
-            if isinstance(node, ast.Assign) and unparse(node.targets[0]) == 'path_length':
+            if isinstance(node, ast.Assign) and unparse(node.targets[0]) == path_len_var:
                 path_len_src = unparse(node.value)
     emit('/-! ### local backend -/')
     opt('localListExcludeSuffix', 'String', exclude, s)
@@ -82,6 +88,14 @@ def section(ctx):
     else:
         emit(f'def localSliceFrom (pathLength : Nat) : Nat := {slice_from}')
     emit(f'def localPathLengthIsLenOfStrOfRoot : Bool := {"true" if path_len_src == "len(str(self.path))" else "false"}')
+    init = ctx.find_func(tree, 'Local', '__init__')
+    made_abs = False
+    if init is not None:
+        for node in ast.walk(init):
+            if isinstance(node, ast.Assign) and unparse(node.targets[0]) == 'self.path':
+                v = unparse(node.value)
+                made_abs = v.endswith('.absolute()') or v.endswith('.resolve()') or 'abspath(' in v
+    emit(f'def localRootMadeAbsolute : Bool := {"true" if made_abs else "false"}')
     dt = ctx.find_func(tree, 'Local', '_destination_temp')
     temp_suffix = None
     if dt is not None:
@@ -110,26 +124,41 @@ def section(ctx):
     tag_trunc = stop_text = tag_token = tag_key = None
     init_trunc = None
     if lf is not None:
+        loop_var = None
         for node in ast.walk(lf):
-            if isinstance(node, ast.Assign) and unparse(node.targets[0]) == 'is_truncated' and init_trunc is None:
+            if isinstance(node, ast.While) and isinstance(node.test, ast.Name):
+                loop_var = node.test.id
+        for node in ast.walk(lf):
+            if isinstance(node, ast.Assign) and len(node.targets) == 1 and isinstance(node.targets[0], ast.Name) \
+                    and node.targets[0].id == loop_var and init_trunc is None:
                 init_trunc = _lit(node.value)
+
+        def is_text(n):
+            return isinstance(n, ast.Attribute) and n.attr == 'text'
+
+        def eq_const(c):
+            """`<name> == <str const>` → (name, const)"""
+            if isinstance(c, ast.Compare) and len(c.ops) == 1 and isinstance(c.ops[0], ast.Eq) and isinstance(_lit(c.comparators[0]), str):
+                return c.left, _lit(c.comparators[0])
+            return None, None
+        for node in ast.walk(lf):
             if isinstance(node, ast.If):
-                # the if / elif chain over `tag`
                 cur = node
                 while isinstance(cur, ast.If):
-                    t = cur.test
-                    body = cur.body
-                    if isinstance(t, ast.BoolOp) and isinstance(t.op, ast.And) and len(t.values) == 2 \
-                            and all(isinstance(v, ast.Compare) and len(v.ops) == 1 and isinstance(v.ops[0], ast.Eq) for v in t.values) \
-                            and unparse(t.values[0].left) == 'tag' and unparse(t.values[1].left) == 'element.text' \
-                            and len(body) == 1 and unparse(body[0]) == 'is_truncated = False':
-                        tag_trunc, stop_text = _lit(t.values[0].comparators[0]), _lit(t.values[1].comparators[0])
-                    elif isinstance(t, ast.Compare) and len(t.ops) == 1 and isinstance(t.ops[0], ast.Eq) and unparse(t.left) == 'tag' and len(body) == 1:
-                        b = unparse(body[0])
-                        if b == 'continuation_token = element.text':
-                            tag_token = _lit(t.comparators[0])
-                        elif b == 'yield element.text':
-                            tag_key = _lit(t.comparators[0])
+                    t_, body = cur.test, cur.body
+                    if isinstance(t_, ast.BoolOp) and isinstance(t_.op, ast.And) and len(t_.values) == 2 and len(body) == 1:
+                        (l0, c0), (l1, c1) = eq_const(t_.values[0]), eq_const(t_.values[1])
+                        if l0 is not None and l1 is not None and isinstance(l0, ast.Name) and is_text(l1) \
+                                and isinstance(body[0], ast.Assign) and unparse(body[0].targets[0]) == loop_var and _lit(body[0].value) is False:
+                            tag_trunc, stop_text = c0, c1
+                    else:
+                        l0, c0 = eq_const(t_)
+                        if l0 is not None and isinstance(l0, ast.Name) and len(body) == 1:
+                            b = body[0]
+                            if isinstance(b, ast.Assign) and isinstance(b.targets[0], ast.Name) and is_text(b.value):
+                                tag_token = c0
+                            elif isinstance(b, ast.Expr) and isinstance(b.value, ast.Yield) and is_text(b.value.value):
+                                tag_key = c0
                     cur = cur.orelse[0] if len(cur.orelse) == 1 else None
     emit('/-! ### S3-compatible backend -/')
     opt('s3TagTruncated', 'String', tag_trunc, s)
